@@ -5,7 +5,7 @@ import ast
 from .core import ( rule, Result, AnalysisError, dotted, call_name, is_call_to, names_in, attrs_in, walk_no_nested,
                     norm_text, dotted_in, stmt_of, pmatch, pfind, txt )
 from .core import Matcher
-from .fold import try_fold, run_block, NoFold
+from .fold import try_fold, run_block, NoFold, Record
 from .cfg import CFG, INF
 
 AUTOMATA = 'automata.py'
@@ -232,7 +232,9 @@ def r_limit( ctx ):
     LIMITED = lim[0].targets[0].id if lim else 'limited'
     good = False
     for s in lim:
-        if pmatch( s.value, 'ending is not None and source.sent >= ending' ) or pmatch( s.value, 'ending is not None and ending <= source.sent' ):
+        # by value: at sent = 5, an ending of None / 7 leaves the state free, an ending of 3 / 5 limits it
+        cells = [ try_fold( s.value, { 'ending': e_, 'source.sent': 5, 'source': Record( sent=5 ) }, default='?' ) for e_ in ( None, 7, 3, 5 ) ]
+        if [ ( c != '?' and bool( c )) for c in cells ] == [ False, False, True, True ] and '?' not in cells:
             good = True
             res.ok( src, s, 'limited = ending is not None and source.sent >= ending' )
         else:
@@ -240,10 +242,14 @@ def r_limit( ctx ):
             res.bad( src, s, s, 'a state is limited as soon as source.sent >= ending (`>` lets one symbol past the limit)' )
     if not lim:
         res.bad( src, tr, 'state.transition', 'no `limited` computation from ending' )
-    inp = pfind( tr, '_i = None if %s else source.peek()' % LIMITED ) + pfind( tr, '_i = source.peek() if not %s else None' % LIMITED )
-    # ... and that symbol is the one the transition table is indexed with
-    if inp and not pfind( tr, 'self.__getitem__( %s )' % inp[0][1]['_i'].id ) and not pfind( tr, 'self[%s]' % inp[0][1]['_i'].id ):
-        inp = []
+    # ... the symbol the transition table is indexed with: by value, None once limited, the peeked symbol otherwise
+    inp = []
+    for a_ in walk_no_nested( tr ):
+        if isinstance( a_, ast.Assign ) and len( a_.targets ) == 1 and isinstance( a_.targets[0], ast.Name ) and LIMITED in names_in( a_.value ):
+            v_ = [ try_fold( a_.value, { LIMITED: l_, 'source.peek': lambda: 'PEEKED' }, default='?' ) for l_ in ( True, False ) ]
+            nm = a_.targets[0].id
+            if v_ == [ None, 'PEEKED' ] and ( pfind( tr, 'self.__getitem__( %s )' % nm ) or pfind( tr, 'self[%s]' % nm )):
+                inp.append(( a_, { '_i': a_.targets[0] } ))
     if inp:
         res.ok( src, inp[0][0], 'a limited state looks up the None transition only' )
     else:
